@@ -1,6 +1,7 @@
 //! Harness binary for the incremental-font-transfer / klippa dependency cone.
 mod c18;
 mod c19;
+mod c19_f1;
 mod synth;
 
 fn main() {
